@@ -125,6 +125,14 @@ func genScenario(r *hutil.Rng, stream string) Scenario {
 				live = append(live, c)
 			}
 		}
+		if i > 0 && r.Chance(1, 7) {
+			// one pass of the two-phase timeout checker; connections it may have closed are not reused
+			sc.Ops = append(sc.Ops, Op{K: "check", Expired: r.Chance(1, 2)})
+			for c := range chainLast {
+				dead[c] = true
+			}
+			live = nil
+		}
 		if len(live) > 0 && r.Chance(1, 8) {
 			// the pool retires a connection (idle limit / lifetime)
 			c := live[r.Intn(len(live))]
@@ -179,6 +187,9 @@ func genScenario(r *hutil.Rng, stream string) Scenario {
 			}
 			sc.Ops = append(sc.Ops, p)
 		}
+	}
+	if r.Chance(1, 5) {
+		sc.Ops = append(sc.Ops, Op{K: "check", Expired: r.Chance(1, 2)})
 	}
 	for _, t := range autos {
 		if r.Chance(5, 6) {
@@ -350,19 +361,53 @@ func enumLongXid() []Scenario {
 	return out
 }
 
+// the two-phase timeout checker between phase one and phase two: within and after the hold time,
+// over prepared, failed-START and stuck phase-one connections, both server families: enumerated
+func enumCheck() []Scenario {
+	var out []Scenario
+	x := []string{"10.0.0.7:8091:2612345678901234567", "10.0.0.9:8091:77"}
+	bs := []int64{2612345678901234568, 2612345678901234569, 2612345678901234570}
+	mk := func(ver string, ops []Op, fs ...Fault) Scenario {
+		return Scenario{Version: ver, Xids: x, Branches: bs, Refuse: []int{0, 0, 0}, Stream: "clean", Ops: ops, Faults: fs}
+	}
+	for _, ver := range []string{"5.7.30", "8.0.30"} {
+		for _, e := range []bool{false, true} {
+			for _, c := range []bool{true, false} {
+				for _, st := range []bool{false, true} {
+					out = append(out, mk(ver, []Op{{K: "auto"}, {K: "check", Expired: e}, {K: "p2", Target: 0, Commit: c, Stranger: st}}))
+				}
+			}
+			out = append(out, mk(ver, []Op{{K: "auto"}, {K: "check", Expired: e}, {K: "p2", Target: 0, Commit: false}}, Fault{Kind: "START", Nth: 0}))
+			out = append(out, mk(ver, []Op{{K: "auto"}, {K: "auto", G: 1}, {K: "check", Expired: e}, {K: "p2", Target: 1, Commit: true}},
+				Fault{Kind: "STMT", Nth: 0}, Fault{Kind: "END", Nth: 0}))
+			out = append(out, mk(ver, []Op{{K: "auto"}, {K: "auto", G: 1, Reuse: true, Target: 0}, {K: "check", Expired: e},
+				{K: "p2", Target: 0, Commit: false}, {K: "p2", Target: 1, Commit: true}}, Fault{Kind: "START", Nth: 0}))
+			out = append(out, mk(ver, []Op{{K: "auto"}, {K: "auto", G: 1}, {K: "check", Expired: e}, {K: "check", Expired: true},
+				{K: "p2", Target: 1, Commit: false}, {K: "p2", Target: 0, Commit: true}, {K: "retire", Target: 0}}))
+			out = append(out, mk(ver, []Op{{K: "auto", Db: true}, {K: "retry"}, {K: "retry"}, {K: "check", Expired: e},
+				{K: "p2", Target: 1, Commit: true}, {K: "p2", Target: 0, Commit: false}}, Fault{Kind: "START", Nth: 0, Err: "badconn"}))
+		}
+	}
+	return out
+}
+
 func findingScenarios(r *hutil.Rng) []Scenario {
+	// same histories as the committed replays of the findings, other identifiers: the driver requires
+	// them to do exactly what the replays are recorded to do (oracle messages, command/result
+	// sequence, outcomes)
 	var out []Scenario
 	x := genXid(r, false)
-	out = append(out, Scenario{Version: "5.7.30", Xids: []string{x, genXid(r, false)}, Branches: []int64{41, 42}, Refuse: []int{0, 0},
+	out = append(out, Scenario{Version: "5.7.30", Xids: []string{x, genXid(r, false)}, Branches: []int64{int64(41 + r.Intn(1000)), 2042}, Refuse: []int{0, 0},
 		Stream: "finding:xa.conn-reuse",
 		Ops:    []Op{{K: "auto"}, {K: "p2", Target: 0, Commit: true}, {K: "reuse", G: 1, Target: 0}}})
-	out = append(out, Scenario{Version: "5.7.30", Xids: []string{x, genXid(r, false)}, Branches: []int64{43, 44}, Refuse: []int{0, 0},
-		Stream: "finding:xa.conn-reuse",
-		Ops:    []Op{{K: "auto"}, {K: "p2", Target: 0, Commit: r.Chance(1, 2)}, {K: "reuse", G: 1, Target: 0, Commit: true}}})
 	for _, commit := range []bool{true, false} {
-		out = append(out, Scenario{Version: "5.7.30", Xids: []string{x}, Branches: []int64{51}, Refuse: []int{0},
+		n := 1
+		if commit {
+			n = 2
+		}
+		out = append(out, Scenario{Version: "5.7.30", Xids: []string{x}, Branches: []int64{int64(51 + r.Intn(1000))}, Refuse: []int{0},
 			Stream: "finding:xa.explicit-tx",
-			Ops:    []Op{{K: "explicit", NStmts: 1 + r.Intn(3), Commit: commit}}})
+			Ops:    []Op{{K: "explicit", NStmts: n, Commit: commit}}})
 	}
 	return out
 }
@@ -466,6 +511,7 @@ func Run(args map[string]string) {
 		scs = append(scs, enumReuse()...)
 		scs = append(scs, enumPool()...)
 		scs = append(scs, enumLongXid()...)
+		scs = append(scs, enumCheck()...)
 		rc := r.Fork(1)
 		for i := 0; i < n; i++ {
 			scs = append(scs, genScenario(rc, "clean"))
